@@ -159,6 +159,85 @@ def wl_polygons(run, rng, idx):
         plt.close("all")
 
 
+def wl_halfplane_infinite_vertex(run, rng, idx):
+    """half-plane polygons with an ideal vertex at the point at infinity (the
+    modular-group picture): the library supports them explicitly
+    (get_vertical_segment / up_infinity).  Every sampled point of the drawn path
+    lies on the arc between two consecutive finite vertices, on the vertical ray
+    above a finite neighbour of the vertex at infinity, or off screen above
+    up_infinity where the two rays are joined (seeded change C19-r2-1: the edge
+    starting at infinity no longer reversed, the path cuts across the polygon)."""
+    H, D, PR, plt = libs()
+    from ..ref import draw as rd
+    mon = run.monitor("polygon-path")
+    nfin = 2 + idx % 3
+    pos = idx % (nfin + 1)                 # where the vertex at infinity is inserted
+    d, A = make_drawing(rng, "halfplane", "identity", plt, D, H)
+    try:
+        xs = np.sort(rng.uniform(-2.5, 2.5, size=nfin))
+        if np.min(np.diff(xs)) < 0.3:
+            return mon.skip("finite vertices too close")
+        ys = rng.uniform(0.4, 2.0, size=nfin)
+        fin = np.stack([xs, ys], axis=-1)
+        if idx % 2:
+            fin = fin[::-1]
+        K = rc.halfspace_to_klein(fin)
+        Xf = np.concatenate([np.ones((nfin, 1)), K], axis=-1)
+        inf = np.array([[1.0, 1.0, 0.0]])
+        X = np.concatenate([Xf[:pos], inf, Xf[pos:]], axis=0)
+        X = X * rng.uniform(0.5, 2.0, size=(nfin + 1, 1))
+        case = {"workload": "halfplane-infinite-vertex", "finite_vertices_halfplane": fin,
+                "position_of_infinity": pos, "vertices": X}
+        run.current_case = case
+        before = list(d.ax.patches)
+        d.draw_polygon(H.Polygon(X), facecolor="lightgreen")
+        new = [a for a in d.ax.patches if a not in before]
+        if len(new) != 1:
+            return mon.fail("polygon-path/infinite-vertex/artist-count",
+                            "draw_polygon added %d patches" % len(new), case)
+        path = new[0].get_path()
+        moves, pieces = rd.pieces_of(path)
+        up = float(d.up_infinity)
+        n = nfin + 1
+        verts = [None if k == pos else fin[k if k < pos else k - 1] for k in range(n)]
+        edges = [(verts[k], verts[(k + 1) % n]) for k in range(n)]
+
+        def defect(pt):
+            best = np.inf
+            for p_, q_ in edges:
+                if p_ is None or q_ is None:
+                    f = q_ if p_ is None else p_
+                    if pt[1] >= f[1] - 1e-6:
+                        best = min(best, abs(pt[0] - f[0]))
+                    continue
+                if abs(p_[0] - q_[0]) < 1e-12:
+                    continue
+                c = (q_ @ q_ - p_ @ p_) / (2 * (q_[0] - p_[0]))
+                r = math.hypot(p_[0] - c, p_[1])
+                lo, hi = sorted([p_[0], q_[0]])
+                if lo - 1e-6 <= pt[0] <= hi + 1e-6:
+                    best = min(best, abs(math.hypot(pt[0] - c, pt[1]) - r))
+            return best
+        worst = 0.0
+        for pc in pieces:
+            for pt in pc.pts:
+                if not np.all(np.isfinite(pt)):
+                    return mon.fail("polygon-path/infinite-vertex/non-finite-path",
+                                    "the path of a polygon with a vertex at infinity has "
+                                    "non-finite coordinates", case)
+                if pt[1] >= up - 1e-6:
+                    continue                      # the join of the two rays, off screen
+                worst = max(worst, defect(pt))
+        mon.judge(worst, 2e-3, "polygon-path/infinite-vertex/leaves-the-edges",
+                  "a visible sampled point of the path of a half-plane polygon with a vertex at "
+                  "infinity lies on none of its edges (Euclidean defect)", case)
+        mon.require(moves == 1, "polygon-path/infinite-vertex/moveto-count",
+                    "the path has %d MOVETO codes" % moves, case)
+        run.note_class("halfplane-infinite-vertex", nfin, pos, bool(idx % 2))
+    finally:
+        plt.close("all")
+
+
 def wl_geodesics(run, rng, idx):
     H, D, PR, plt = libs()
     model = HMODELS[idx % 3]
@@ -381,6 +460,7 @@ def wl_docs(run, rng, idx):
 
 WORKLOADS = [
     Workload("polygons", wl_polygons, quick=150, thorough=4800),
+    Workload("halfplane-infinite-vertex", wl_halfplane_infinite_vertex, quick=36, thorough=720),
     Workload("geodesics", wl_geodesics, quick=108, thorough=2880),
     Workload("points", wl_points, quick=72, thorough=720),
     Workload("horo", wl_horo, quick=60, thorough=1200),
